@@ -9,51 +9,110 @@ open PdfVerif PdfVerif.Gen.LexTables
 
 def tokVals (ts : List PTok) : List Token := ts.map (·.2)
 
-/-- From any state of the main scanner, `s` followed by anything yields the tokens `ts` (at some
-    positions) and the reading of what follows continues in the main scanner. -/
-def LexUnit (s : Bytes) (ts : List Token) : Prop :=
-  ∀ (st : St) (rest : Bytes) (pos : Nat), st.mode = .main →
-    ∃ st', st'.mode = .main ∧
-      tokVals (foldBytes st (s ++ rest) pos).2 = ts ++ tokVals (foldBytes st' rest (pos + s.length)).2
+/-- PDF white space (ISO 32000-1 Table 1) -/
+def isGapByte (c : UInt8) : Bool := c == 0 || c == 9 || c == 10 || c == 12 || c == 13 || c == 32
 
-theorem LexUnit.nil : LexUnit [] [] := fun st rest pos hm => ⟨st, hm, by simp⟩
+/-- white space or delimiter (ISO 32000-1 7.2.2): the bytes that end a run of regular characters -/
+def isDW (c : UInt8) : Bool :=
+  isGapByte c || c == 40 || c == 41 || c == 60 || c == 62 || c == 91 || c == 93 || c == 123 || c == 125 ||
+    c == 47 || c == 37
 
-theorem LexUnit.append {s1 s2 : Bytes} {t1 t2 : List Token} (h1 : LexUnit s1 t1) (h2 : LexUnit s2 t2) :
-    LexUnit (s1 ++ s2) (t1 ++ t2) := by
-  intro st rest pos hm
-  obtain ⟨st1, hm1, e1⟩ := h1 st (s2 ++ rest) pos hm
-  obtain ⟨st2, hm2, e2⟩ := h2 st1 rest (pos + s1.length) hm1
+/-- Hand-over states between tokens: the main scanner, or `_parse_wclose` right after the `>` of a
+    hexadecimal string (it behaves like the main scanner on every byte but `>`, where it completes `>>`). -/
+def HO (st : St) : Prop := st.mode = .main ∨ st.mode = .wclose
+
+/-- From any hand-over state, `s` followed by a byte `d` (and anything) yields the tokens `ts` and
+    the reading continues at `d` in a hand-over state.  `reg = true`: `s` ends in a run of regular
+    characters, so `d` must be white space or a delimiter. -/
+def LexUnit (s : Bytes) (ts : List Token) (reg : Bool) : Prop :=
+  ∀ (st : St) (d : UInt8) (rest : Bytes) (pos : Nat), HO st → (reg = true → isDW d = true) →
+    ∃ st', HO st' ∧
+      tokVals (foldBytes st (s ++ d :: rest) pos).2 = ts ++ tokVals (foldBytes st' (d :: rest) (pos + s.length)).2
+
+theorem LexUnit.nil : LexUnit [] [] false := fun st d rest pos hm _ => ⟨st, hm, by simp⟩
+
+theorem LexUnit.weaken {s : Bytes} {ts : List Token} (h : LexUnit s ts false) (r : Bool) : LexUnit s ts r :=
+  fun st d rest pos hs _ => h st d rest pos hs (by simp)
+
+/-- Units concatenate; after a regular run the next unit must begin with (or, if empty, be followed by)
+    white space or a delimiter. -/
+theorem LexUnit.append {s1 s2 : Bytes} {t1 t2 : List Token} {r1 r2 : Bool}
+    (h1 : LexUnit s1 t1 r1) (h2 : LexUnit s2 t2 r2)
+    (hd : r1 = true → ∀ d, (r2 = true → isDW d = true) → isDW ((s2 ++ [d]).headD 0) = true) :
+    LexUnit (s1 ++ s2) (t1 ++ t2) r2 := by
+  intro st d rest pos hs hok
+  obtain ⟨c, tl, hc⟩ : ∃ c tl, s2 ++ d :: rest = c :: tl := by
+    cases s2 with
+    | nil => exact ⟨d, rest, rfl⟩
+    | cons c t => exact ⟨c, t ++ d :: rest, rfl⟩
+  have hhead : (s2 ++ [d]).headD 0 = c := by
+    cases s2 with
+    | nil => simp at hc ⊢; exact hc.1
+    | cons c' t => simp at hc ⊢; exact hc.1
+  obtain ⟨st1, hm1, e1⟩ := h1 st c tl pos hs (fun hr => by rw [← hhead]; exact hd hr d hok)
+  obtain ⟨st2, hm2, e2⟩ := h2 st1 d rest (pos + s1.length) hm1 hok
   refine ⟨st2, hm2, ?_⟩
-  rw [List.append_assoc, e1, e2]
+  rw [List.append_assoc, hc, e1, ← hc, e2]
   simp [Nat.add_assoc]
 
-/-- from an exact description of the fold over `s` alone -/
-theorem LexUnit.of_fold {s : Bytes} {ts : List Token}
+theorem LexUnit.append_free {s1 s2 : Bytes} {t1 t2 : List Token} {r2 : Bool}
+    (h1 : LexUnit s1 t1 false) (h2 : LexUnit s2 t2 r2) : LexUnit (s1 ++ s2) (t1 ++ t2) r2 :=
+  LexUnit.append h1 h2 (fun h => by cases h)
+
+theorem LexUnit.append_dw {s1 : Bytes} {b : UInt8} {s2 : Bytes} {t1 t2 : List Token} {r1 r2 : Bool}
+    (h1 : LexUnit s1 t1 r1) (h2 : LexUnit (b :: s2) t2 r2) (hb : isDW b = true) :
+    LexUnit (s1 ++ b :: s2) (t1 ++ t2) r2 :=
+  LexUnit.append h1 h2 (fun _ d _ => by simpa using hb)
+
+/-- After the `>` of a hex string every byte but `>` is read as by the main scanner. -/
+theorem fold_from_wclose (st : St) (b : UInt8) (tl : Bytes) (p : Nat) (hm : st.mode = .wclose) (hb : b ≠ 62) :
+    foldBytes st (b :: tl) p = foldBytes { st with mode := .main } (b :: tl) p := by
+  have hb' : (b == 62) = false := by simpa using hb
+  simp only [foldBytes]
+  rw [step_hit st b p (Or.inl (by simp [hm, searchClass]))]
+  simp [atHit, hm, parseWcloseHit, hb']
+
+/-- a unit that does not begin with `>`, described from the main scanner only -/
+theorem LexUnit.of_main {b : UInt8} {s : Bytes} {ts : List Token} {reg : Bool} (hb : b ≠ 62)
+    (h : ∀ (st : St) (d : UInt8) (rest : Bytes) (pos : Nat), st.mode = .main → (reg = true → isDW d = true) →
+      ∃ st', HO st' ∧ tokVals (foldBytes st ((b :: s) ++ d :: rest) pos).2 =
+        ts ++ tokVals (foldBytes st' (d :: rest) (pos + (b :: s).length)).2) :
+    LexUnit (b :: s) ts reg := by
+  intro st d rest pos hs hok
+  rcases hs with hm | hw
+  · exact h st d rest pos hm hok
+  · obtain ⟨st', hm', e⟩ := h { st with mode := .main } d rest pos rfl hok
+    refine ⟨st', hm', ?_⟩
+    rw [List.cons_append, fold_from_wclose st b _ pos hw hb]
+    exact e
+
+/-- …from an exact description of the fold over the unit alone -/
+theorem LexUnit.of_fold {b : UInt8} {s : Bytes} {ts : List Token} (hb : b ≠ 62)
     (h : ∀ (st : St) (pos : Nat), st.mode = .main →
-      ∃ st', st'.mode = .main ∧ (foldBytes st s pos).1 = st' ∧ tokVals (foldBytes st s pos).2 = ts) :
-    LexUnit s ts := by
-  intro st rest pos hm
+      ∃ st', HO st' ∧ (foldBytes st (b :: s) pos).1 = st' ∧ tokVals (foldBytes st (b :: s) pos).2 = ts) :
+    LexUnit (b :: s) ts false := by
+  apply LexUnit.of_main hb
+  intro st d rest pos hm _
   obtain ⟨st', hm', e1, e2⟩ := h st pos hm
   refine ⟨st', hm', ?_⟩
   rw [foldBytes_append]
   simp only [tokVals, List.map_append] at e2 ⊢
   rw [e2, e1]
 
-/-! ### white space between tokens -/
+/-! ### white space and comments between tokens -/
 
-/-- PDF white space (ISO 32000-1 Table 1) -/
-def isGapByte (c : UInt8) : Bool := c == 0 || c == 9 || c == 10 || c == 12 || c == 13 || c == 32
+theorem dw_facts : ∀ c : UInt8,
+    (!isDW c || (isEND_NUMBER c && c != 46 && isEND_LITERAL c && c != 35 && isEND_KEYWORD c)) = true :=
+  forall_byte _ (by decide +kernel)
 
-theorem gap_facts : ∀ c : UInt8,
-    (!isGapByte c || ((!isNONSPC c || c == 0) && isEND_NUMBER c && c != 46 && isEND_LITERAL c && c != 35 &&
-      isEND_KEYWORD c && c != 62)) = true :=
+theorem gap_facts : ∀ c : UInt8, (!isGapByte c || ((!isNONSPC c || c == 0) && c != 62 && isDW c)) = true :=
   forall_byte _ (by decide +kernel)
 
 theorem main_gap_byte (st : St) (c : UInt8) (p : Nat) (hm : st.mode = .main) (hg : isGapByte c = true) :
     ∃ st', st'.mode = .main ∧ stepByte st c p = (st', []) := by
   have hf := gap_facts c
   simp only [hg, Bool.not_true, Bool.false_or, Bool.and_eq_true] at hf
-  have h0 := hf.1.1.1.1.1.1
+  have h0 := hf.1.1
   by_cases hns : isNONSPC c = true
   · have hc0 : c = 0 := by simpa [hns] using h0
     subst hc0
@@ -67,52 +126,120 @@ theorem main_gap_byte (st : St) (c : UInt8) (p : Nat) (hm : st.mode = .main) (hg
     rw [step_nonmatch st c p isNONSPC (by simp [hm, searchClass]) hns']
     simp [accum, hm]
 
-theorem LexUnit.gap : ∀ (g : Bytes), (∀ c ∈ g, isGapByte c = true) → LexUnit g []
-  | [], _ => LexUnit.nil
-  | c :: t, hg => by
-    have h1 : LexUnit [c] [] := LexUnit.of_fold (fun st pos hm => by
-      obtain ⟨st', hm', e⟩ := main_gap_byte st c pos hm (hg c (by simp))
-      exact ⟨st', hm', by simp [foldBytes, e], by simp [foldBytes, e, tokVals]⟩)
-    have h2 := LexUnit.gap t (fun x hx => hg x (by simp [hx]))
-    simpa using LexUnit.append h1 h2
+/-- what may stand between two tokens: a white-space byte, or a comment up to and including its
+    end-of-line byte (7.2.3; a CR LF end is `comment … 13` followed by `ws 10`) -/
+inductive SepItem where
+  | ws (c : UInt8)
+  | comment (body : Bytes) (eol : UInt8)
 
-/-- a token that ends at the first byte `g` of the following white space -/
-theorem LexUnit.of_token {s : Bytes} {t : Token} (g : UInt8) (hg : isGapByte g = true)
-    (h : ∀ (st : St) (rest : Bytes) (pos : Nat), st.mode = .main →
-      ∃ st', st'.mode = .main ∧
-        (foldBytes st (s ++ g :: rest) pos).2 = (pos, t) :: (foldBytes st' (g :: rest) (pos + s.length)).2) :
-    LexUnit (s ++ [g]) [t] := by
-  intro st rest pos hm
-  obtain ⟨st1, hm1, e1⟩ := h st rest pos hm
-  obtain ⟨st2, hm2, e2⟩ := main_gap_byte st1 g (pos + s.length) hm1 hg
-  refine ⟨st2, hm2, ?_⟩
-  have e : s ++ [g] ++ rest = s ++ g :: rest := by simp
-  rw [e, e1]
-  simp [tokVals, foldBytes, e2, Nat.add_assoc]
+def SepItem.ok : SepItem → Prop
+  | .ws c => isGapByte c = true
+  | .comment body eol => (∀ x ∈ body, isEOL x = false) ∧ (eol = 10 ∨ eol = 13)
+
+def SepItem.render : SepItem → Bytes
+  | .ws c => [c]
+  | .comment body eol => 37 :: (body ++ [eol])
+
+def renderSep : List SepItem → Bytes
+  | [] => []
+  | i :: r => i.render ++ renderSep r
+
+def sepOK (g : List SepItem) : Prop := ∀ i ∈ g, i.ok
+
+theorem comment_facts : (isNONSPC 37 && isEOL 10 && isEOL 13 && !isNONSPC 10 && !isNONSPC 13) = true := by
+  decide +kernel
+
+theorem LexUnit.sepItem (i : SepItem) (hi : i.ok) : LexUnit i.render [] false := by
+  cases i with
+  | ws c =>
+    simp only [SepItem.ok] at hi
+    have hf := gap_facts c
+    simp only [hi, Bool.not_true, Bool.false_or, Bool.and_eq_true, bne_iff_ne, ne_eq] at hf
+    exact LexUnit.of_fold hf.1.2 (fun st pos hm => by
+      obtain ⟨st', hm', e⟩ := main_gap_byte st c pos hm hi
+      exact ⟨st', Or.inl hm', by simp [foldBytes, e], by simp [foldBytes, e, tokVals]⟩)
+  | comment body eol =>
+    simp only [SepItem.ok] at hi
+    obtain ⟨hbody, heol⟩ := hi
+    have hf := comment_facts
+    simp only [Bool.and_eq_true, Bool.not_eq_true'] at hf
+    obtain ⟨⟨⟨⟨n37, e10⟩, e13⟩, s10⟩, s13⟩ := hf
+    have heolE : isEOL eol = true := by
+      rcases heol with rfl | rfl
+      · exact e10
+      · exact e13
+    have heolS : isNONSPC eol = false := by
+      rcases heol with rfl | rfl
+      · exact s10
+      · exact s13
+    refine LexUnit.of_fold (by decide) (fun st pos hm => ?_)
+    have d37 : isDigit 37 = false := by decide
+    have s1 : stepByte st 37 pos = ({ st with tpos := pos, cur := [37], mode := .comment }, []) := by
+      rw [step_hit st 37 pos (Or.inr ⟨isNONSPC, by simp [hm, searchClass], n37⟩)]
+      simp [atHit, hm, parseMainHit]
+    have s2 := fold_nonmatch isEOL body [eol] { st with tpos := pos, cur := [37], mode := .comment } (pos + 1)
+      (by simp [searchClass]) hbody
+    have s3 : ∀ (s0 : St) (p : Nat), s0.mode = .comment →
+        stepByte s0 eol p = ({ s0 with mode := .main }, []) := by
+      intro s0 p hm0
+      rw [step_hit s0 eol p (Or.inr ⟨isEOL, by simp [hm0, searchClass], heolE⟩)]
+      simp only [atHit, hm0, parseCommentHit, Bool.false_eq_true, if_false, List.nil_append]
+      rw [step_nonmatch _ eol p isNONSPC (by simp [searchClass]) heolS]
+      simp [accum]
+    have hfold : foldBytes st (37 :: (body ++ [eol])) pos =
+        ({ st with tpos := pos, cur := [37] ++ body, mode := .main }, []) := by
+      simp only [foldBytes, s1, List.nil_append]
+      rw [s2]
+      simp only [foldBytes]
+      rw [s3 _ _ (by simp)]
+      simp [accum]
+    exact ⟨{ st with tpos := pos, cur := [37] ++ body, mode := .main }, Or.inl rfl, by rw [hfold], by rw [hfold]; rfl⟩
+
+theorem LexUnit.sep : ∀ (g : List SepItem), sepOK g → LexUnit (renderSep g) [] false
+  | [], _ => LexUnit.nil
+  | i :: r, hg => by
+    have h1 := LexUnit.sepItem i (hg i (by simp))
+    have h2 := LexUnit.sep r (fun x hx => hg x (by simp [hx]))
+    simpa [renderSep] using LexUnit.append_free h1 h2
+
+/-- a non-empty separator begins with white space or `%`, both of which end a regular run -/
+theorem sep_head_dw (g : List SepItem) (hg : sepOK g) (hne : g ≠ []) (rest : Bytes) :
+    isDW ((renderSep g ++ rest).headD 0) = true := by
+  cases g with
+  | nil => exact absurd rfl hne
+  | cons i r =>
+    have hi := hg i (by simp)
+    cases i with
+    | ws c =>
+      simp only [SepItem.ok] at hi
+      have hf := gap_facts c
+      simp only [hi, Bool.not_true, Bool.false_or, Bool.and_eq_true] at hf
+      simpa [renderSep, SepItem.render] using hf.2
+    | comment body eol => simp [renderSep, SepItem.render, isDW]
 
 /-! ### structural keywords -/
 
 theorem bracket_facts : (isNONSPC 91 && isNONSPC 93 && isNONSPC 60 && isNONSPC 62) = true := by decide +kernel
 
-theorem LexUnit.open_bracket : LexUnit [91] [Token.kwd [91]] := LexUnit.of_fold (fun st pos hm => by
+theorem LexUnit.open_bracket : LexUnit [91] [Token.kwd [91]] false := LexUnit.of_fold (by decide) (fun st pos hm => by
   have hf := bracket_facts; simp only [Bool.and_eq_true] at hf
   have d : isDigit 91 = false := by decide
   have a : isAlpha 91 = false := by decide
   have e : stepByte st 91 pos = ({ st with tpos := pos }, [(pos, Token.kwd [91])]) := by
     rw [step_hit st 91 pos (Or.inr ⟨isNONSPC, by simp [hm, searchClass], hf.1.1.1⟩)]
     simp [atHit, hm, parseMainHit, d, a, emit]
-  exact ⟨{ st with tpos := pos }, hm, by simp [foldBytes, e], by simp [foldBytes, e, tokVals]⟩)
+  exact ⟨{ st with tpos := pos }, Or.inl hm, by simp [foldBytes, e], by simp [foldBytes, e, tokVals]⟩)
 
-theorem LexUnit.close_bracket : LexUnit [93] [Token.kwd [93]] := LexUnit.of_fold (fun st pos hm => by
+theorem LexUnit.close_bracket : LexUnit [93] [Token.kwd [93]] false := LexUnit.of_fold (by decide) (fun st pos hm => by
   have hf := bracket_facts; simp only [Bool.and_eq_true] at hf
   have d : isDigit 93 = false := by decide
   have a : isAlpha 93 = false := by decide
   have e : stepByte st 93 pos = ({ st with tpos := pos }, [(pos, Token.kwd [93])]) := by
     rw [step_hit st 93 pos (Or.inr ⟨isNONSPC, by simp [hm, searchClass], hf.1.1.2⟩)]
     simp [atHit, hm, parseMainHit, d, a, emit]
-  exact ⟨{ st with tpos := pos }, hm, by simp [foldBytes, e], by simp [foldBytes, e, tokVals]⟩)
+  exact ⟨{ st with tpos := pos }, Or.inl hm, by simp [foldBytes, e], by simp [foldBytes, e, tokVals]⟩)
 
-theorem LexUnit.dict_open : LexUnit [60, 60] [Token.kwd [60, 60]] := LexUnit.of_fold (fun st pos hm => by
+theorem LexUnit.dict_open : LexUnit [60, 60] [Token.kwd [60, 60]] false := LexUnit.of_fold (by decide) (fun st pos hm => by
   have hf := bracket_facts; simp only [Bool.and_eq_true] at hf
   have d : isDigit 60 = false := by decide
   have a : isAlpha 60 = false := by decide
@@ -123,21 +250,33 @@ theorem LexUnit.dict_open : LexUnit [60, 60] [Token.kwd [60, 60]] := LexUnit.of_
       ({ st with tpos := pos, cur := [], mode := .main }, [(pos, Token.kwd [60, 60])]) := by
     rw [step_hit _ 60 _ (Or.inl (by simp [searchClass]))]
     simp [atHit, parseWopenHit, emit, kwDictBegin]
-  exact ⟨{ st with tpos := pos, cur := [], mode := .main }, rfl, by simp [foldBytes, e1, e2],
+  exact ⟨{ st with tpos := pos, cur := [], mode := .main }, Or.inl rfl, by simp [foldBytes, e1, e2],
     by simp [foldBytes, e1, e2, tokVals]⟩)
 
-theorem LexUnit.dict_close : LexUnit [62, 62] [Token.kwd [62, 62]] := LexUnit.of_fold (fun st pos hm => by
+/-- `>>` completes from the main scanner and also right after the `>` of a hex string (`<41>>>`). -/
+theorem LexUnit.dict_close : LexUnit [62, 62] [Token.kwd [62, 62]] false := by
   have hf := bracket_facts; simp only [Bool.and_eq_true] at hf
   have d : isDigit 62 = false := by decide
   have a : isAlpha 62 = false := by decide
-  have e1 : stepByte st 62 pos = ({ st with tpos := pos, cur := [], mode := .wclose }, []) := by
-    rw [step_hit st 62 pos (Or.inr ⟨isNONSPC, by simp [hm, searchClass], hf.2⟩)]
+  have toW : ∀ (st : St) (p : Nat), st.mode = .main →
+      stepByte st 62 p = ({ st with tpos := p, cur := [], mode := .wclose }, []) := by
+    intro st p hm
+    rw [step_hit st 62 p (Or.inr ⟨isNONSPC, by simp [hm, searchClass], hf.2⟩)]
     simp [atHit, hm, parseMainHit, d, a]
-  have e2 : stepByte { st with tpos := pos, cur := [], mode := .wclose } 62 (pos + 1) =
-      ({ st with tpos := pos, cur := [], mode := .main }, [(pos, Token.kwd [62, 62])]) := by
-    rw [step_hit _ 62 _ (Or.inl (by simp [searchClass]))]
-    simp [atHit, parseWcloseHit, emit, kwDictEnd]
-  exact ⟨{ st with tpos := pos, cur := [], mode := .main }, rfl, by simp [foldBytes, e1, e2],
-    by simp [foldBytes, e1, e2, tokVals]⟩)
+  have fromW : ∀ (st : St) (p : Nat), st.mode = .wclose →
+      stepByte st 62 p = ({ st with mode := .main }, [(st.tpos, Token.kwd [62, 62])]) := by
+    intro st p hm
+    rw [step_hit st 62 p (Or.inl (by simp [hm, searchClass]))]
+    simp [atHit, hm, parseWcloseHit, emit, kwDictEnd]
+  intro st dd rest pos hs _
+  rcases hs with hm | hw
+  · refine ⟨{ st with tpos := pos, cur := [], mode := .main }, Or.inl rfl, ?_⟩
+    simp only [List.cons_append, List.nil_append, foldBytes, toW st pos hm]
+    rw [fromW _ _ rfl]
+    simp [tokVals]
+  · refine ⟨{ st with mode := .wclose, tpos := pos + 1, cur := [] }, Or.inr rfl, ?_⟩
+    simp only [List.cons_append, List.nil_append, foldBytes, fromW st pos hw]
+    rw [toW _ _ rfl]
+    simp [tokVals]
 
 end PdfVerif.Lexer
